@@ -155,6 +155,8 @@ func init() {
 			"range correctness for every width at value level; re-render fidelity.")
 		ruleFloat2Int(c, r)
 		ruleDecodeDiscipline(c, r)
+		ruleEmptyExact(c, r)
+		ruleEnumLib(c, r)
 		ruleTablesJSON(c, r)
 		ruleSignConv(c, r, c.anchored("C18"), 1)
 	})
@@ -166,6 +168,7 @@ func init() {
 		ruleTablesJSON(c, r)
 		ruleSignConv(c, r, c.anchored("C19"), 0)
 		ruleReflectSign(c, r, c.funcsInScope(func(s string) bool { return s == "ygot/render.go" }, libPkgs), 3)
+		ruleWideKinds(c, r)
 	})
 }
 
@@ -176,6 +179,7 @@ func init() {
 		ruleEnumLib(c, r)
 		r.Rule("R-MAPRANGE-RETURN", "a range over a map returns at most one distinct constant result from inside the loop", 0)
 		ruleMapRangeReturnFile(c, r, "ytypes", "util_types.go")
+		ruleEnumGen(c, r)
 	})
 	register("C20", func(c *Ctx, r *Report) {
 		r.Decides("three panic classes over everything statically reachable from the nine entry points: unchecked single-result type assertions, comparisons of possibly-uncomparable interface values, reflective calls with unchecked arity; plus no explicit panic().",
